@@ -57,7 +57,7 @@ ASSUMPTIONS = [
     "to that (STuple ignores the flag, theorem C14_tuple_ignore_refuted)" % FINDING_TUPLE_IGNORE,
 ]
 RULE = ("per instance: static_length; valid encodings built by the independent Python layout from boundary-biased values; "
-        "every single-position replacement by 0,1,2,2^32-1,2^32,2^63,p-1,x+-1, truncations and extensions (must be rejected), "
+        "every single-position replacement by 0,1,2,2^32-1,2^32,2^63,p-1,x+-1, two-position replacements (equal / different high words, +-1 transfers, swaps), truncations and extensions (must be rejected), "
         "prepends, garbage, unknown discriminants, huge length prefixes; each case runs the workspace-derived and the "
         "registry-derived type (verdict, re-encoding, Debug value, ignored fields, discriminant method) against the model; "
         "non-trivial = every case; distinct = distinct case text")
@@ -112,6 +112,35 @@ def mutants(gt, enc, rng, max_pos):
     return out
 
 
+def pair_mutants(enc, rng, w0, npairs):
+    """two-position replacements (as in C03): the same / different out-of-range high word on two elements, +1/-1
+    transfers between two positions (e.g. two length prefixes, or a prefix and the discriminant), swaps"""
+    out = []
+    L = len(enc)
+    if L < 2 or w0:
+        return out
+    pairs = set()
+    for i in range(min(L - 1, 3)):
+        pairs.add((i, i + 1))
+    pairs.add((L - 2, L - 1))
+    for _ in range(npairs):
+        i, j = sorted(rng.sample(range(L), 2))
+        pairs.add((i, j))
+    for (i, j) in sorted(pairs):
+        a, b = enc[i], enc[j]
+        for (da, db) in ((2**32, 2**32), (3 * 2**32, 3 * 2**32), (2**32, 2**33), (2**63, 2**63), (1, -1), (-1, 1)):
+            x, y = a + da, b + db
+            if 0 <= x < P and 0 <= y < P:
+                m = list(enc)
+                m[i], m[j] = x, y
+                out.append(m)
+        if a != b:
+            m = list(enc)
+            m[i], m[j] = b, a
+            out.append(m)
+    return out
+
+
 def cases(tier, rng):
     out = []
     big = tier == "thorough"
@@ -131,6 +160,8 @@ def cases(tier, rng):
                 out.append(("tuple-ignore-attr", line("tign", iid, enc)))
             for k, op, m in mutants(gt, enc, rng, max_pos):
                 out.append((k, line(op, iid, m)))
+            for m in pair_mutants(enc, rng, w0, 8 if big else 3):
+                out.append(("mutant-pair", line("dec", iid, m)))
         for _ in range(20 if big else 4):
             n = rng.choice((0, 1, 2, 3, 5, 9))
             pool = (0, 1, 2, 3) if w0 else (0, 1, 2, 3, 5, 2**32 - 1, 2**32, 2**63, P - 1)
